@@ -537,6 +537,14 @@ class ScipyOptimizeDriver(Driver):
 
         self._scipy_optimize_result = result
 
+        # Leave the model at the design scipy returned; some optimizers evaluate other points
+        # after their best one.
+        if hasattr(result, 'x') and (self._con_cache_x is None or
+                                     not np.array_equal(result.x, self._con_cache_x)):
+            self._objfunc(np.array(result.x, dtype=float))
+            if self._exc_info is not None:
+                self._reraise()
+
         if hasattr(result, 'success'):
             self.fail = not result.success
             if self.fail:
